@@ -101,8 +101,24 @@ fn mem_hook(ev: &'static str, addr: usize) {
     })
     .flatten();
     if let Some(b) = bad {
-        // do not let the real code touch freed memory: unwind out of it
-        panic!("{b}");
+        // do not let the real code touch freed memory: unwind out of it (never from inside an
+        // unwind: a second panic would abort the process)
+        if !std::thread::panicking() {
+            panic!("{b}");
+        }
+    }
+}
+
+/// A `Loan` owned by a worker.  If the worker unwinds (a violation was detected and the hook
+/// panicked) the `Loan` is leaked instead of dropped, so that no further real operation runs
+/// on a possibly freed allocation.
+struct Held(Option<N>);
+
+impl Drop for Held {
+    fn drop(&mut self) {
+        if std::thread::panicking() {
+            std::mem::forget(self.0.take());
+        }
     }
 }
 
@@ -144,7 +160,8 @@ unsafe impl Sync for Shared {}
 
 fn worker(sh: Arc<Shared>, sched: Arc<Sched>, t: usize) {
     let _g = coop::enter(&sched, t);
-    let mut loan: Option<N> = None;
+    let mut held = Held(None);
+    let loan = &mut held.0;
     loop {
         coop::yield_point("idle");
         let cmd = sh.cmd[t].lock().unwrap().take().unwrap_or(Cmd::Exit);
@@ -163,7 +180,7 @@ fn worker(sh: Arc<Shared>, sched: Arc<Sched>, t: usize) {
                     }
                     // a thread keeps at most one loan: drop a second one immediately (never happens)
                     if loan.is_none() {
-                        loan = Some(n);
+                        *loan = Some(n);
                     }
                 }
                 sh.has_loan[t].store(loan.is_some(), Ordering::SeqCst);
